@@ -95,6 +95,17 @@ CHECKS.update({
             "DESIGN.md §4 C20"),
 })
 
+CHECKS.update({
+    "C08": ("simquic+sched", "GOAWAY history checker: GOAWAY frames (ids + write times) read off the server's control stream by the reference parser vs, per request stream, pull time / shown / reset+stop_sending codes; shutdown(n) issued at schedule-chosen moments between out-of-order arrivals; client side: GOAWAY id sequences vs RemoteClosing / H3_ID_ERROR and no stream opened",
+            "Thousands of server histories (in-order, out-of-order, gapped and large ids, repeated shutdown(n)) and client GOAWAY sequences per run; ids must be non-increasing request ids, nothing shown may be >= any id sent, streams pulled after GOAWAY(g) are rejected with 0x10b iff >= g. Held-on-observed.",
+            "Trusts the reference parser and the simulator's event times; streams the application never pulled carry no obligation.",
+            "DESIGN.md §4 C08"),
+    "C09": ("simquic+sched", "handle-liveness history checker with quiescence-based bounded-progress oracle: endings alphabet^k x GOAWAY position enumerated, the harness owns and logs every handle drop; accept() returning None is checked against live handles, accept() pending at quiescence against 'GOAWAY delivered and all handles gone'",
+            "All histories of <= 2 (quick) / <= 3 (thorough) requests over the 8 endings x every GOAWAY position are run (3 schedules each) plus sampled longer ones. Safety and bounded progress are decided on the totally ordered event log and at executor quiescence, not on wall-clock. Held-on-observed.",
+            "Trusts the simulator's quiescence detection; QPACK failures excluded (connection errors).",
+            "DESIGN.md §4 C09"),
+})
+
 NOT_YET = {}
 
 def main():
